@@ -110,6 +110,20 @@ Theorem C32_base_is_derived_from_alphanumerics : forall s,
 Proof. exact base_derived. Qed.
 Print Assumptions C32_base_is_derived_from_alphanumerics.
 
+(* The independent specification of "derived from the name's lowercase alphanumerics": `words s`
+   are the maximal runs of [a-z0-9] in the name (non-empty, all alphanumeric, their concatenation
+   is the name's alphanumerics in order), and the sanitised form is these runs joined by single
+   hyphens — so the base id is that, with "d-" in front of a digit, cut to 63 (previous theorem). *)
+Theorem C32_sanitised_form_is_the_alphanumeric_runs_joined_by_hyphens : forall s,
+  sanitize s = joinh (words s).
+Proof. exact sanitize_is_joined_words. Qed.
+Print Assumptions C32_sanitised_form_is_the_alphanumeric_runs_joined_by_hyphens.
+
+Theorem C32_words_are_the_alphanumeric_runs : forall s,
+  Forall word_ok (words s) /\ concat (words s) = filter keep s.
+Proof. exact words_spec. Qed.
+Print Assumptions C32_words_are_the_alphanumeric_runs.
+
 (* no id is returned only after the oracle has refused all 99 candidates *)
 Theorem C32_no_id_only_after_all_attempts : forall oracle dr s force r n k,
   find_deployment_id oracle dr s force = (r, n, k) ->
@@ -167,3 +181,9 @@ Example C32_example_long :
   /\ dns_full (base [120; 120; 120; 120; 120; 120; 120; 120; 120; 120; 120; 120; 120; 120; 120; 120; 120; 120; 120; 120; 120; 120; 120; 120; 120; 120; 120; 120; 120; 120; 32; 121; 121; 121; 121; 121; 121; 121; 121; 121; 121; 121; 121; 121; 121; 121; 121; 121; 121; 121; 121; 121; 121; 121; 121; 121; 45; 122; 122; 122; 122; 122; 122; 122; 122; 122; 122; 122; 122; 122]) = true /\ dns_full (suffixed (base [120; 120; 120; 120; 120; 120; 120; 120; 120; 120; 120; 120; 120; 120; 120; 120; 120; 120; 120; 120; 120; 120; 120; 120; 120; 120; 120; 120; 120; 120; 32; 121; 121; 121; 121; 121; 121; 121; 121; 121; 121; 121; 121; 121; 121; 121; 121; 121; 121; 121; 121; 121; 121; 121; 121; 121; 45; 122; 122; 122; 122; 122; 122; 122; 122; 122; 122; 122; 122; 122]) dr0 0) = true.
 Proof. vm_compute. repeat split; reflexivity. Qed.
 Print Assumptions C32_example_long.
+
+(* the runs of "--My  Service!!2" (lower-cased) are "my", "service", "2" *)
+Example C32_example_words :
+  words [45; 45; 109; 121; 32; 32; 115; 101; 114; 118; 105; 99; 101; 33; 33; 50] = [[109; 121]; [115; 101; 114; 118; 105; 99; 101]; [50]] /\ sanitize [45; 45; 109; 121; 32; 32; 115; 101; 114; 118; 105; 99; 101; 33; 33; 50] = [109; 121; 45; 115; 101; 114; 118; 105; 99; 101; 45; 50].
+Proof. vm_compute. split; reflexivity. Qed.
+Print Assumptions C32_example_words.
